@@ -203,10 +203,13 @@ async def run_overlap(tbl, idx, triple, req, retries, events, timeout=5.0):
     return [points, intruders, [p.values.value, p.values.min_value, p.values.max_value]]
 
 
-async def run_set_call_frames(product, idx, triple, value, retries, timeout, events, tracking, payloads):
+async def run_set_call_frames(product, idx, triple, value, retries, timeout, events, tracking, payloads, gated=False):
     """As run_set_call, for an ecoMAX parameter of a REAL device: the parameter is created, and every report delivered, by
     ecoMAX-parameters response frames through EcoMAX.handle_frame (payloads[0] creates it, payloads[1:] are the reports of
-    `events` in order).  Returns (outs per point, triple after, None)."""
+    `events` in order).  Returns (outs per point, triple after, None).
+    gated=True: every thread-pool job (the class loading behind Request.create) completes only when the harness lets it, and an
+    event [3, triple] -- placed first or right after a timer expiry -- is a report handled WHILE the request of that
+    transmission is being built (between the start of create_request() and the request reaching the queue)."""
     from pyplumio.const import FrameType, ProductType
     from pyplumio.devices.ecomax import EcoMAX
     from pyplumio.frames import responses as R
@@ -232,6 +235,30 @@ async def run_set_call_frames(product, idx, triple, value, retries, timeout, eve
     if tracking:
         dev._frame_versions[FrameType.REQUEST_ECOMAX_PARAMETERS] = 1
     dec = lambda m: m[1]
+    gate = []
+    loop = asyncio.get_running_loop()
+    if gated:
+        def hook(loop_, func, *args):
+            fut = loop_.create_future()
+            gate.append((fut, func, args))
+            return fut
+        loop.executor_hook = hook
+
+    async def pump(hop_payload=None):
+        """let the pending thread-pool jobs complete; a hop report is handled before the first of them does"""
+        await settle()
+        if hop_payload is not None:
+            dev.handle_frame(R.EcomaxParametersResponse(message=bytearray(hop_payload)))
+            await settle()
+        while gate:
+            fut, func, args = gate.pop(0)
+            if not fut.done():
+                try:
+                    fut.set_result(func(*args))
+                except BaseException as e:  # noqa: BLE001
+                    fut.set_exception(e)
+            await settle()
+
     task = asyncio.ensure_future(p.set(value, retries=retries, timeout=timeout))
 
     def result_outs():
@@ -245,17 +272,33 @@ async def run_set_call_frames(product, idx, triple, value, retries, timeout, eve
             return [["other-exception", type(exc).__name__]]
         return []
 
-    await settle()
-    outs = [drain(queue, 51, 49, dec) + result_outs()]
-    k = 1
-    for ev in events:
+    def point():
+        return drain(queue, 51, 49, dec) + result_outs()
+
+    k, i = 1, 0
+    hop = events[0] if gated and events and events[0][0] == 3 else None
+    await pump(payloads[k] if hop else None)
+    outs = [point()]
+    if hop:
+        k, i = k + 1, 1
+        outs.append(point())
+    while i < len(events):
+        ev = events[i]
+        i += 1
         if ev[0] == 0:
             await asyncio.sleep(timeout)
+            hop = events[i] if gated and i < len(events) and events[i][0] == 3 else None
+            await pump(payloads[k] if hop else None)
+            outs.append(point())
+            if hop:
+                k, i = k + 1, i + 1
+                outs.append(point())
         else:
             dev.handle_frame(R.EcomaxParametersResponse(message=bytearray(payloads[k])))
             k += 1
-        await settle()
-        outs.append(drain(queue, 51, 49, dec) + result_outs())
+            await pump()
+            outs.append(point())
+    loop.executor_hook = None
     if not task.done():
         task.cancel()
         try:
@@ -267,6 +310,63 @@ async def run_set_call_frames(product, idx, triple, value, retries, timeout, eve
     await asyncio.gather(*dev.tasks, return_exceptions=True)
     q = dev.data[name]
     return outs, [q.values.value, q.values.min_value, q.values.max_value], None
+
+
+async def run_mixer_session(product, payloads, mixer, pidx, value):
+    """A REAL ecoMAX receives the mixer-parameters responses `payloads` in order; then parameter `pidx` (table position) of
+    mixer `mixer` is set to `value` through the Mixer device the library created.  Returns
+    ["no-mixer"] | ["no-parameter"] | [outcome, [[device index, parameter index, value] per queued set request], held triple]."""
+    from pyplumio.const import ProductType
+    from pyplumio.devices.ecomax import EcoMAX
+    from pyplumio.frames import responses as R
+    from pyplumio.structures import mixer_parameters as MP
+    from pyplumio.structures.network_info import NetworkInfo
+    from harness import proto_impl as PI
+    queue = asyncio.Queue()
+    dev = EcoMAX(queue, network=NetworkInfo())
+    name = MP.MIXER_PARAMETERS[ProductType(product)][pidx].name
+
+    async def settle():
+        for _ in range(8):
+            await asyncio.sleep(0)
+
+    dev.handle_frame(R.UIDResponse(message=bytearray(PI.payload("responses/uid.json", {0: "EM350P2_uid", 1: "ecoMAX_850i_uid"}[product]))))
+    await settle()
+    for pl in payloads:
+        dev.handle_frame(R.MixerParametersResponse(message=bytearray(pl)))
+        await settle()
+    while not queue.empty():
+        queue.get_nowait()
+    mx = dev.data.get("mixers", {}).get(mixer)
+    try:
+        if mx is None:
+            return ["no-mixer"]
+        par = mx.data.get(name)
+        if par is None:
+            return ["no-parameter"]
+        task = asyncio.ensure_future(par.set(value, retries=1, timeout=1.0))
+        await settle()
+        sent = []
+        while not queue.empty():
+            f = queue.get_nowait()
+            if int(f.frame_type) == 52:
+                sent.append(list(f.message))
+        if task.done():
+            exc = task.exception()
+            out = "ValueError" if isinstance(exc, ValueError) else ("returned" if exc is None else type(exc).__name__)
+        else:
+            out = "pending"
+            task.cancel()
+            try:
+                await task
+            except BaseException:  # noqa: BLE001
+                pass
+        return [out, sent, [par.values.value, par.values.min_value, par.values.max_value]]
+    finally:
+        for d in [dev] + list(dev.data.get("mixers", {}).values()):
+            for t in list(d.tasks):
+                t.cancel()
+            await asyncio.gather(*d.tasks, return_exceptions=True)
 
 
 async def make_schedule_param(idx: int, triple, tracking: bool = True):
